@@ -59,9 +59,31 @@ type Event struct {
 }
 
 type ThreadSpec struct {
-	Role   string `json:"role"` // producer consumer closer janitor solo
-	Script string `json:"script"`
-	Ctx    bool   `json:"ctx,omitempty"` // the state has a (never cancelled) context attached
+	Role   string     `json:"role"` // producer consumer closer janitor solo edge
+	Script string     `json:"script"`
+	Ctx    bool       `json:"ctx,omitempty"`  // the state has a (never cancelled) context attached
+	Opts   *StateOpts `json:"opts,omitempty"` // registry / call stack sizes of the state (edge threads)
+	Edge   bool       `json:"edge,omitempty"` // the script uses the edge prelude (operations at a chosen register height)
+}
+
+// StateOpts are the lua.Options of a thread's state (small, fixed or growing registries; small call stacks).
+type StateOpts struct {
+	RegSize   int  `json:"reg_size"`
+	RegMax    int  `json:"reg_max"`
+	Grow      int  `json:"grow"`
+	CallStack int  `json:"call_stack"`
+	MinStack  bool `json:"min_stack,omitempty"`
+}
+
+// EdgeObs counts what the edge threads of a history did: operations issued at a chosen register
+// height, how many of them ended in an error, how many of those failed after the leaf had been
+// entered (the library call itself, or the handler it called, hit the limit), history steps run.
+type EdgeObs struct {
+	Ops          int `json:"ops"`
+	Failed       int `json:"failed"`
+	FailedInside int `json:"failed_inside"`
+	HistSteps    int `json:"hist_steps"`
+	HistErrors   int `json:"hist_errors"`
 }
 
 type HistSpec struct {
@@ -136,6 +158,7 @@ type Result struct {
 	Lib    *LibObs    `json:"lib,omitempty"`
 	Make   *MakeObs   `json:"make,omitempty"`
 	Errs   []string   `json:"errs,omitempty"`
+	Edge   *EdgeObs   `json:"edge,omitempty"`
 }
 
 // ---------- child ----------
@@ -255,6 +278,7 @@ type histRun struct {
 	chIndex map[chan lua.LValue]int
 	prod    sync.WaitGroup
 	errs    []string
+	edge    EdgeObs
 }
 
 func (h *histRun) describe(lv lua.LValue, depth int) Val {
@@ -301,6 +325,9 @@ func classifyErr(msg string) string {
 		return "sendclosed"
 	case strings.Contains(msg, "close of closed channel"):
 		return "closeclosed"
+	case strings.Contains(msg, "registry overflow") || strings.Contains(msg, "stack overflow"):
+		// the calling state's own resource limit (no room for the results / the handler call)
+		return "limit"
 	}
 	return "other"
 }
@@ -396,6 +423,29 @@ func (h *histRun) register(L *lua.LState, t int) {
 		h.mu.Unlock()
 		return 0
 	}))
+	// edge threads report, from the top level, how an operation at depth ended
+	L.SetGlobal("edge_note", L.NewFunction(func(L *lua.LState) int {
+		ok, entered := L.ToBool(1), L.ToBool(2)
+		h.mu.Lock()
+		h.edge.Ops++
+		if !ok {
+			h.edge.Failed++
+			if entered {
+				h.edge.FailedInside++
+			}
+		}
+		h.mu.Unlock()
+		return 0
+	}))
+	L.SetGlobal("edge_hist", L.NewFunction(func(L *lua.LState) int {
+		h.mu.Lock()
+		h.edge.HistSteps++
+		if !L.ToBool(1) {
+			h.edge.HistErrors++
+		}
+		h.mu.Unlock()
+		return 0
+	}))
 	L.SetGlobal("yield", L.NewFunction(func(L *lua.LState) int { runtime.Gosched(); return 0 }))
 	L.SetGlobal("nap", L.NewFunction(func(L *lua.LState) int {
 		time.Sleep(time.Duration(L.OptInt(1, 1)) * time.Microsecond)
@@ -444,7 +494,11 @@ func runHist(spec *HistSpec) Result {
 	protos := map[string]*lua.FunctionProto{}
 	for _, th := range spec.Threads {
 		if _, ok := protos[th.Script]; !ok {
-			p, err := compileSrc(prelude+th.Script, "script")
+			pre := prelude
+			if th.Edge {
+				pre += edgePrelude
+			}
+			p, err := compileSrc(pre+th.Script, "script")
 			if err != nil {
 				return Result{Status: "error", Msg: "script does not compile: " + trunc(err.Error(), 300)}
 			}
@@ -465,6 +519,9 @@ func runHist(spec *HistSpec) Result {
 			opts := lua.Options{}
 			if t%2 == 0 {
 				opts = lua.Options{MinimizeStackMemory: true, CallStackSize: 128}
+			}
+			if o := th.Opts; o != nil {
+				opts = lua.Options{RegistrySize: o.RegSize, RegistryMaxSize: o.RegMax, RegistryGrowStep: o.Grow, CallStackSize: o.CallStack, MinimizeStackMemory: o.MinStack}
 			}
 			L := lua.NewState(opts)
 			defer L.Close()
@@ -499,6 +556,10 @@ func runHist(spec *HistSpec) Result {
 		return Result{Status: "hang", Msg: "threads still blocked after the time limit", Log: lg}
 	}
 	r := Result{Status: "ok", Log: h.log, Errs: h.errs}
+	if h.edge.Ops > 0 || h.edge.HistSteps > 0 {
+		e := h.edge
+		r.Edge = &e
+	}
 	if len(h.errs) > 0 {
 		r.Status = "error"
 		r.Msg = strings.Join(h.errs, "; ")
